@@ -17,7 +17,7 @@ use std::collections::{BTreeMap, BTreeSet};
 use std::io::{Read, Write};
 use std::process::{Command, Stdio};
 use std::time::{Duration, Instant};
-use tera::Context;
+use tera::{Context, Kwargs, State};
 use tera_verif_harness::report::{out_path, replay_path, Report};
 use tera_verif_harness::rng::Rng;
 use tera_verif_harness::tplgen::{add_all, canon_err, engine, err_class, mark, real_derived, set_wire, BlockS, TplS};
@@ -159,6 +159,8 @@ fn shape(len: usize, nb: usize, configs: &[Vec<(u8, usize)>], mut idx: u64, seed
                 in_filter: mix(seed, salt, (lvl * 8 + b) as u64) % 3 == 0,
                 super_twice: st == 2 && mix(seed, salt, (100 + lvl * 8 + b) as u64) % 4 == 0,
                 call_before_super: st == 2 && mix(seed, salt, (200 + lvl * 8 + b) as u64) % 4 == 1,
+                // an EMPTY definition (no instruction at all), only where nothing is nested in it
+                empty: st == 1 && !(0..nb).any(|c| cfg[c].0 > 0 && cfg[c].1 == b) && mix(seed, salt, (300 + lvl * 8 + b) as u64) % 4 == 2,
             });
         }
         tpls.push(t);
@@ -210,6 +212,10 @@ impl<'a> Ref<'a> {
         }
         let owner = defs[i];
         let d = owner.blocks.iter().find(|x| x.name == b).unwrap();
+        if d.empty {
+            // an empty definition is still THE definition at its level: it writes nothing
+            return Ok(String::new());
+        }
         let mut s = format!("[{}@{}{}:", b, mark(&owner.name), mark(&owner.tag));
         let mut again = String::new();
         if d.calls_super {
@@ -399,6 +405,15 @@ fn run_shape(tpls: &[TplS], orders: &[Vec<usize>]) -> Outcome {
                 o.failure = Some(format!("render_block(`{}`, `{b}`) panicked: {got}", t.name));
                 return o;
             }
+            // the writer variant must answer the same (text, or the same kind of error)
+            let got_to = class_of(&catch(std::panic::AssertUnwindSafe(|| {
+                let mut buf: Vec<u8> = Vec::new();
+                tera.render_block_to(&t.name, b, &Context::new(), &mut buf).map(|()| String::from_utf8_lossy(&buf).to_string())
+            })));
+            if got_to != got {
+                o.failure = Some(format!("render_block_to(`{}`, `{b}`) gives `{got_to}` but render_block gives `{got}`", t.name));
+                return o;
+            }
             if !in_lineage.contains(b) {
                 if !got.starts_with("err:") {
                     o.failure = Some(format!("render_block(`{}`, `{b}`): no template of the chain defines the block, engine `{got}`", t.name));
@@ -472,6 +487,26 @@ fn run_shape(tpls: &[TplS], orders: &[Vec<usize>]) -> Outcome {
                 return o;
             }
         }
+        // a REJECTED re-registration of each template (it parses, has new block bodies, but uses an
+        // unknown filter): the call must fail and leave every template, its lineage chunks included,
+        // and every render as before
+        for a in 0..tpls.len() {
+            let mut rejected = cur[a].clone();
+            rejected.tag = "rej".to_string();
+            rejected.bad_ref = Some("filter".to_string());
+            o.history_steps += 1;
+            match catch(std::panic::AssertUnwindSafe(|| tera.add_raw_template(&rejected.name, &rejected.source()))) {
+                Ok(Err(e)) if err_class(&canon_err(&e)) == "msg" => {}
+                other => {
+                    o.failure = Some(format!("re-registering `{}` with an unknown filter must fail with the collected message error, got {:?}", rejected.name, other.map(|r| r.map_err(|e| canon_err(&e)))));
+                    return o;
+                }
+            }
+            if let Some(f) = verify(&tera, &cur, &format!("a REJECTED re-registration of `{}` (new block bodies, unknown filter): the instance must be as before the call", rejected.name), &mut o.renders) {
+                o.failure = Some(f);
+                return o;
+            }
+        }
         // a new root that defines every block name of the chain at top level
         let names: BTreeSet<String> = cur.iter().flat_map(|t| t.blocks.iter().map(|b| b.name.clone())).collect();
         let mut layout = TplS::new("layout.html");
@@ -497,6 +532,90 @@ fn run_shape(tpls: &[TplS], orders: &[Vec<usize>]) -> Outcome {
             }
             if let Some(f) = verify(&tera, &cur, &what, &mut o.renders) {
                 o.failure = Some(f);
+                return o;
+            }
+        }
+    }
+    // an application function registered under the very name `super`: inside a block `super()` still
+    // means the parent block
+    if !o.call_cycle && tpls.iter().any(|t| t.blocks.iter().any(|b| b.calls_super)) {
+        let reg = catch(std::panic::AssertUnwindSafe(|| {
+            let mut t = engine(&[]);
+            t.register_function("super", |_: Kwargs, _: &State| "CUSTOM".to_string());
+            add_all(&mut t, tpls).map(|()| t).map_err(|e| canon_err(&e))
+        }));
+        match reg {
+            Ok(Ok(t2)) => {
+                for t in tpls {
+                    let mut r = Ref { tpls, written: BTreeMap::new(), depth_exceeded: false };
+                    let want = r.render(&t.name);
+                    if r.depth_exceeded {
+                        continue;
+                    }
+                    let got = class_of(&catch(std::panic::AssertUnwindSafe(|| t2.render(&t.name, &Context::new()))));
+                    o.renders += 1;
+                    let want_s = match &want {
+                        Ok(s) => format!("ok:{s}"),
+                        Err(_) => "err:rendering".to_string(),
+                    };
+                    if got != want_s {
+                        o.failure = Some(format!("with an application function registered under the name `super`: render of `{}`: engine `{got}`, reference (super() = the parent block) `{want_s}`", t.name));
+                        return o;
+                    }
+                }
+            }
+            other => {
+                o.failure = Some(format!("with a function named `super` registered the accepted chain is answered {:?}", other.map(|r| r.map(|_| "ok"))));
+                return o;
+            }
+        }
+    }
+    // the same chain with the root living under the FIRST of two fallback prefixes and a decoy of
+    // the same short name under the second: `extends "<short name>"` must link to the first
+    if tpls.len() >= 2 && !o.call_cycle {
+        let prefixes = vec!["th/".to_string(), "alt/".to_string()];
+        let short = tpls[0].name.clone();
+        let mut real: Vec<TplS> = tpls.to_vec();
+        real[0].name = format!("th/{short}");
+        let mut decoy = TplS::new(&format!("alt/{short}"));
+        decoy.tag = "decoy".into();
+        let names: BTreeSet<String> = tpls.iter().flat_map(|t| t.blocks.iter().map(|b| b.name.clone())).collect();
+        decoy.blocks = names.iter().map(|n| BlockS { name: n.clone(), ..Default::default() }).collect();
+        real.push(decoy);
+        let mut refv = real.clone();
+        refv[1].parent = Some(format!("th/{short}"));
+        let reg = catch(std::panic::AssertUnwindSafe(|| {
+            let mut t = engine(&prefixes);
+            add_all(&mut t, &real).map(|()| t).map_err(|e| canon_err(&e))
+        }));
+        match reg {
+            Ok(Ok(t2)) => {
+                let d = real_derived(&t2);
+                let got_parents = d.tpls.get(&real[1].name).map(|t| t.parents.clone()).unwrap_or_default();
+                if got_parents.first() != Some(&format!("th/{short}")) {
+                    o.failure = Some(format!("prefixes {prefixes:?}: `{}` extends \"{short}\", which exists as `th/{short}` and `alt/{short}`: the first prefix must win, engine parents {got_parents:?}", real[1].name));
+                    return o;
+                }
+                for t in &real {
+                    let mut r = Ref { tpls: &refv, written: BTreeMap::new(), depth_exceeded: false };
+                    let want = r.render(&t.name);
+                    if r.depth_exceeded {
+                        continue;
+                    }
+                    let got = class_of(&catch(std::panic::AssertUnwindSafe(|| t2.render(&t.name, &Context::new()))));
+                    o.renders += 1;
+                    let want_s = match &want {
+                        Ok(s) => format!("ok:{s}"),
+                        Err(_) => "err:rendering".to_string(),
+                    };
+                    if got != want_s {
+                        o.failure = Some(format!("prefixes {prefixes:?}, root registered as `th/{short}` with a decoy `alt/{short}`: render of `{}`: engine `{got}`, reference `{want_s}`", t.name));
+                        return o;
+                    }
+                }
+            }
+            other => {
+                o.failure = Some(format!("prefixes {prefixes:?}, root registered as `th/{short}` with a decoy `alt/{short}`: the chain is answered {:?}", other.map(|r| r.map(|_| "ok"))));
                 return o;
             }
         }
@@ -678,6 +797,11 @@ fn shrink(mut tpls: Vec<TplS>, fails: &dyn Fn(&[TplS]) -> bool) -> Vec<TplS> {
                     d[i].blocks[bi].call_before_super = false;
                     cands.push(d);
                 }
+                if tpls[i].blocks[bi].empty {
+                    let mut d = tpls.clone();
+                    d[i].blocks[bi].empty = false;
+                    cands.push(d);
+                }
                 if tpls[i].blocks[bi].in_filter {
                     let mut d = tpls.clone();
                     d[i].blocks[bi].in_filter = false;
@@ -857,7 +981,7 @@ fn main() {
     }
     for (i, tpls) in shapes.iter().enumerate() {
         // the render skeleton of the model writes one super() per block
-        let twice = tpls.iter().any(|t| t.blocks.iter().any(|b| b.super_twice || b.call_before_super));
+        let twice = tpls.iter().any(|t| t.blocks.iter().any(|b| b.super_twice || b.call_before_super || b.empty));
         if rows[i].renders.len() == tpls.len() && !twice {
             let w = set_wire(&[], tpls);
             for (k, t) in tpls.iter().enumerate() {
@@ -900,6 +1024,9 @@ fn main() {
         }
         if tpls.iter().any(|t| t.blocks.iter().any(|b| b.call_before_super)) {
             report.count("shape.other-function-called-before-super");
+        }
+        if tpls.iter().any(|t| t.blocks.iter().any(|b| b.empty)) {
+            report.count("shape.empty-block-body");
         }
         if !r.failure.is_empty() {
             fails.push(i);
